@@ -49,19 +49,15 @@ theorem readFrom_tie (impl : Opaque "transport.StreamConn" → Bool)
     (copy : Opaque "transport.StreamConn" → Opaque "io.Reader" → Int × Option String)
     (c : Code.measuredConn) (r : Opaque "io.Reader") (steps : List CopyStep) (h0 : 0 ≤ c.writeCount)
     (hn : (if impl c.StreamConn then rf ⟨c.StreamConn.val⟩ r else copy c.StreamConn r).1 = (copied steps : Int)) :
-    ∃ c', Code.measuredConn.ReadFrom impl rf copy c r =
+    ∃ c', Code.measuredConn.ReadFrom rf impl copy c r =
         some (c', (if impl c.StreamConn then rf ⟨c.StreamConn.val⟩ r else copy c.StreamConn r).1,
                   (if impl c.StreamConn then rf ⟨c.StreamConn.val⟩ r else copy c.StreamConn r).2) ∧
       abs c' = step (abs c) (.readFrom (impl c.StreamConn) steps) := by
   unfold Code.measuredConn.ReadFrom
-  cases hi : impl c.StreamConn
-  · simp only [hi, Bool.false_eq_true, if_false] at hn ⊢
-    refine ⟨_, rfl, ?_⟩
-    simp only [abs, step, St.mk.injEq, true_and, hn]
-    omega
-  · simp only [hi, if_true] at hn ⊢
-    refine ⟨_, rfl, ?_⟩
-    simp only [abs, step, St.mk.injEq, true_and, hn]
+  cases hi : impl c.StreamConn <;>
+    simp only [hi, Bool.false_eq_true, if_false, if_true, Bool.not_false, Bool.not_true] at hn ⊢ <;>
+    refine ⟨_, rfl, ?_⟩ <;>
+    simp only [abs, step, St.mk.injEq, true_and, hn] <;>
     omega
 
 end OutlineModel.Tie.MConn
